@@ -141,3 +141,89 @@ func streamLeaks() []string {
 	}
 	return out
 }
+
+// FamBurstEOF: the peer sends a burst of requests and disappears; every request received before the
+// end of the stream / the read failure must still be dispatched — under both link APIs.
+func FamBurstEOF(stream bool, seed int64) SysRecord {
+	r := rand.New(rand.NewSource(seed))
+	k := 4 + r.Intn(12)
+	rec := SysRecord{Family: "bursteof", Config: cfgName("json-raw", stream, -1), Seed: seed}
+	w := newWorld()
+	node := NewSysNode[json.RawMessage](w, "A")
+	c := jsonRawCodec()
+	slowUnmarshal := func(d json.RawMessage, v any) error {
+		time.Sleep(300 * time.Microsecond) // dispatch slower than decoding
+		return c.Unmarshal(d, v)
+	}
+	ctx, cancel := context.WithCancel(context.Background())
+	defer cancel()
+	errc := make(chan error, 1)
+	reqf := func(i int) string {
+		return fmt.Sprintf(`{"call":"b%d","function":"EchoInt","args":[%d,%d]}`, i, 600+i, i)
+	}
+	var closeT func()
+	if stream {
+		in, out := newChunkPipe(-1, seed), newChunkPipe(0, 0)
+		enc, dec := c.NewEncoder(out), c.NewDecoder(in)
+		go func() {
+			buf := make([]byte, 4096)
+			for {
+				if _, err := out.Read(buf); err != nil {
+					return
+				}
+			}
+		}()
+		go func() { errc <- node.Reg.LinkStream(ctx, enc, dec, c.Marshal, slowUnmarshal, nil) }()
+		if !WaitRemotes(node, 1) {
+			rec.Notes = append(rec.Notes, "link did not come up")
+			return rec
+		}
+		for i := 0; i < k; i++ {
+			in.Write([]byte(fmt.Sprintf(`{"request":%s,"response":null}`, reqf(i))))
+		}
+		in.Close(errors.New("EOF"))
+		closeT = func() { out.Close(errors.New("EOF")) }
+	} else {
+		reqIn, resIn := newFrameQ[json.RawMessage](), newFrameQ[json.RawMessage]()
+		go func() {
+			errc <- node.Reg.LinkMessage(ctx, func(b json.RawMessage) error { return nil }, func(b json.RawMessage) error { return nil },
+				reqIn.Get, resIn.Get, c.Marshal, slowUnmarshal, nil)
+		}()
+		if !WaitRemotes(node, 1) {
+			rec.Notes = append(rec.Notes, "link did not come up")
+			return rec
+		}
+		for i := 0; i < k; i++ {
+			reqIn.Put(json.RawMessage(reqf(i)))
+		}
+		reqIn.Close(errors.New("EOF"))
+		closeT = func() { resIn.Close(errors.New("EOF")) }
+	}
+	select {
+	case err := <-errc:
+		rec.LinkA = errText(err)
+	case <-time.After(4 * time.Second):
+		rec.Notes = append(rec.Notes, "Link did not return after the peer disappeared")
+	}
+	closeT()
+	cancel()
+	// handlers of everything that was received run to completion
+	waitUntil(func() bool {
+		n := 0
+		for _, e := range w.Events() {
+			if e.Kind == "inv" {
+				n++
+			}
+		}
+		return n == k
+	}, 500*time.Millisecond)
+	rec.Events = w.Events()
+	n := 0
+	for _, e := range rec.Events {
+		if e.Kind == "inv" {
+			n++
+		}
+	}
+	rec.Calls = append(rec.Calls, SysCall{Tag: k, Method: "BurstThenEOF", Arg: fmt.Sprint(k), Ret: fmt.Sprint(n), Done: true})
+	return rec
+}
